@@ -264,13 +264,14 @@ def build_cases(ctx):
     for feats, width in ((PG.CLEAN_FEATS, 2), (PG.ALL_FEATS, 2)):
         for d in PG.exhaustive(feats, width):
             cases.append({"doc": d, "via": "text", "cli": "inproc", "origin": f"exh{width}"})
-    if wide:
+    if ctx.thorough:
         for d in PG.exhaustive(PG.CLEAN_FEATS, 3):
             cases.append({"doc": d, "via": "text", "cli": None, "origin": "exh3"})
     rng = ctx.rng
-    n_text = ctx.budget(500, 5000)
-    n_ast = ctx.budget(250, 2500)
-    n_sub = ctx.budget(0, 150) if ctx.thorough else (24 if ctx.widen > 1 else 0)
+    w = 1 if ctx.thorough else min(ctx.widen, 4)        # a broken tie / changed fingerprint widens the quick search x4
+    n_text = 4000 if ctx.thorough else 500 * w
+    n_ast = 2000 if ctx.thorough else 250 * w
+    n_sub = 150 if ctx.thorough else (16 if ctx.widen > 1 else 0)
     for i in range(n_text):
         feats = PG.CLEAN_FEATS if i % 3 else PG.ALL_FEATS
         d = PG.gen_doc(rng, feats, maxdepth=4 if wide else 3, from_text=True)
